@@ -207,7 +207,7 @@ def run(ctx):
         r.check('handle-parked-until-result', ok, ctx.site('io_loop::IoLoop::wait_for_amqp_handshake'), built=why)
         t = panics.match_bool_table(ctx, 'io_loop::IoLoop::is_handshake_done')
         site = ctx.site('io_loop::IoLoop::is_handshake_done')
-        r.eq('done-table', t, {'Start': 'false', 'Secure': 'false', 'Tune': 'false', 'Open': 'false', 'Done': 'true', 'ServerClosing': '!io_loop::Inner::has_data_to_write(self.inner)'}, site)
+        r.eq('done-table', t, {'Start': 'false', 'Secure': 'false', 'Tune': 'false', 'Open': 'false', 'Done': 'true', 'ServerClosing': 'serialize::SealableOutputBuffer::is_empty(self.inner.outbuf)'}, site)
         ok, why = ck.run('io_loop_returns_ok_only_when_done')
         r.check('loop-ok-only-when-done', ok, ctx.site('io_loop::IoLoop::run_io_loop'), built=why)
         rows = P.table(ctx, 'io_loop::IoLoop::wait_for_amqp_handshake', ['ch0_handle', 'join_handle', 'handshake_done_rx'])
